@@ -15,6 +15,53 @@ use std::path::{Path, PathBuf};
 
 pub const DEFAULT_SEED: u64 = 20261002;
 
+/// A set of 64-bit digests that stays bounded: exact up to `DISTINCT_CAP` members; beyond that it keeps only the
+/// digests whose low `level` bits are zero (every retained member is a genuinely distinct case, so `len()` is a
+/// lower bound of the number of distinct cases; `len() << level` estimates it). Union of two such sets is again
+/// one (at the larger level), so the merged outcome does not depend on the worker count while the sets are exact.
+#[derive(Default, Serialize, Deserialize, Clone)]
+pub struct Distinct {
+    pub level: u8,
+    pub set: BTreeSet<u64>,
+}
+
+pub const DISTINCT_CAP: usize = 1 << 20;
+
+impl Distinct {
+    pub fn insert(&mut self, d: u64) {
+        if self.level == 0 || d & ((1u64 << self.level) - 1) == 0 {
+            self.set.insert(d);
+            if self.set.len() > DISTINCT_CAP {
+                self.shrink();
+            }
+        }
+    }
+    fn shrink(&mut self) {
+        while self.set.len() > DISTINCT_CAP && self.level < 32 {
+            self.level += 1;
+            let m = (1u64 << self.level) - 1;
+            self.set.retain(|d| d & m == 0);
+        }
+    }
+    pub fn extend(&mut self, o: Distinct) {
+        if o.level > self.level {
+            self.level = o.level;
+            let m = (1u64 << self.level) - 1;
+            self.set.retain(|d| d & m == 0);
+        }
+        let m = (1u64 << self.level) - 1;
+        self.set.extend(o.set.into_iter().filter(|d| d & m == 0));
+        self.shrink();
+    }
+    /// number of distinct digests retained: exact while `level == 0`, a lower bound afterwards
+    pub fn len(&self) -> usize {
+        self.set.len()
+    }
+    pub fn estimate(&self) -> u64 {
+        (self.set.len() as u64) << self.level
+    }
+}
+
 #[derive(Default, Serialize, Deserialize, Clone)]
 pub struct Summary {
     pub worker: u64,
@@ -24,9 +71,9 @@ pub struct Summary {
     pub vacuous_why: BTreeMap<String, u64>,
     pub fired: BTreeMap<String, u64>,
     pub probes: BTreeMap<String, u64>,
-    pub shapes_all: BTreeSet<u64>,
-    pub shapes_nontrivial: BTreeSet<u64>,
-    pub schedules: BTreeSet<u64>,
+    pub shapes_all: Distinct,
+    pub shapes_nontrivial: Distinct,
+    pub schedules: Distinct,
     pub sim_seconds: f64,
     pub verdicts: [u64; 3],
     pub cross: BTreeMap<String, (u64, String)>,
@@ -124,7 +171,12 @@ impl Summary {
 pub fn worker_main(check: &str, tier: Tier, base: u64, start: u64, stride: u64, runs: u64, out: &Path, keep_log: bool) {
     crate::install_quiet_panic_hook();
     let mut f = std::fs::OpenOptions::new().create(true).append(true).open(out).expect("worker out");
+    // a checkpoint replaces the file (written aside, renamed over it, re-opened for the "B" lines): the file
+    // holds the latest summary only — appending every checkpoint made the file grow with the square of the
+    // number of runs (tens of GiB of tmpfs in the thorough tier)
+    let tmp = PathBuf::from(format!("{}.tmp", out.display()));
     let mut sum = Summary { worker: start, ..Default::default() };
+    let mut ckpt_cost_ms: u128 = 0;
     // resume support: the parent may restart a worker after a crash with a later `start`
     let scratch = Scratch::new(&format!("w{start}"));
     let mut i = start;
@@ -141,11 +193,22 @@ pub fn worker_main(check: &str, tier: Tier, base: u64, start: u64, stride: u64, 
         // runs does not wipe out everything the worker has seen
         // (the first checkpoints of a process come after 8, 16, 32, ... runs: a library that hangs within
         // the first second of every worker would otherwise leave nothing behind at all)
-        if since >= early.min(500) || last_ckpt.elapsed().as_millis() >= 1500 {
+        // (a checkpoint costs time in proportion to the summary; keep it below ~4 % of the worker's time)
+        let due = last_ckpt.elapsed().as_millis() >= 1500u128.max(25 * ckpt_cost_ms);
+        if (since >= early.min(500) && last_ckpt.elapsed().as_millis() >= 25 * ckpt_cost_ms) || due {
             early = (early * 2).min(500);
             since = 0;
+            let t0 = std::time::Instant::now();
+            if let Ok(mut g) = std::fs::File::create(&tmp) {
+                writeln!(g, "B {i}").ok();
+                writeln!(g, "S {}", serde_json::to_string(&sum).unwrap()).ok();
+                drop(g);
+                if std::fs::rename(&tmp, out).is_ok() {
+                    f = std::fs::OpenOptions::new().create(true).append(true).open(out).expect("worker out");
+                }
+            }
+            ckpt_cost_ms = t0.elapsed().as_millis();
             last_ckpt = std::time::Instant::now();
-            writeln!(f, "S {}", serde_json::to_string(&sum).unwrap()).ok();
         }
         i += stride;
     }
@@ -896,6 +959,16 @@ fn evidence_json(a: &CheckArgs, res: &CheckResult, violations: u64, crash_lines:
             "probes": s.probes,
             "distinct_states": s.shapes_all.len(),
             "distinct_schedules": s.schedules.len(),
+            "distinct_counting": if s.shapes_all.level == 0 && s.shapes_nontrivial.level == 0 && s.schedules.level == 0 {
+                json!("exact: every digest was kept")
+            } else {
+                json!({
+                    "note": "more than 2^20 distinct digests: only digests whose low `level` bits are zero are kept; the counts above are the digests kept (each a distinct case: lower bounds), the estimates are count << level",
+                    "states_level": s.shapes_all.level, "states_estimate": s.shapes_all.estimate(),
+                    "nontrivial_level": s.shapes_nontrivial.level, "nontrivial_estimate": s.shapes_nontrivial.estimate(),
+                    "schedules_level": s.schedules.level, "schedules_estimate": s.schedules.estimate(),
+                })
+            },
             "verdicts_ok_err_panic": s.verdicts,
             "cross_findings": s.cross.iter().map(|(k, v)| json!({"clause": k, "count": v.0, "example": v.1})).collect::<Vec<_>>(),
             "worker_crashes": crash_lines,
